@@ -23,7 +23,10 @@ def scripts(rng, n):
         else:
             lines.append("level, base = base, level")
         rhs = rng.choice(["level + 5", "level * 2 + base", "base - level", "level", "max(level, base) + 1", "level if level > base else base"])
-        lines += [f"duty = {rhs}", "mon.write(duty)"]
+        if rng.random() < 0.3:
+            lines += [f"duty, spare = {rhs}, level + base", "mon.write(duty)", "mon.write(spare)"]
+        else:
+            lines += [f"duty = {rhs}", "mon.write(duty)"]
         if rng.random() < 0.5:
             lines += [f"level = {rng.randint(0, 9)}", f"other = duty + level", "mon.write(other)"]
         if rng.random() < 0.5:
